@@ -25,7 +25,10 @@ package main
 // The op and result formats are those of /verif/lean/Otr/DriverKeyFile.lean.
 // Violation keys: C13 keyfile-panic:<entry point>, keyfile-stack-overflow, keyfile-hang,
 // keyfile-slow (an answered call that used more than 8 s of processor time, twice); C17 keyfile-roundtrip,
-// keyfile-import-rejects-export, keyfile-import-numbers, privkey-wire-roundtrip.
+// keyfile-import-rejects-export, keyfile-import-numbers, privkey-wire-roundtrip, keyfile-name-altered /
+// keyfile-name-rejected (an account name - in particular one with leading, trailing, embedded or only
+// white space - read from an exported or hand-written file is not the name that was written),
+// sexp-string-altered (sexp.ReadString / ReadValue of "…" is not the text between the quotes).
 // Each key is reported once, with the number of cases and the smallest witness.
 
 import (
@@ -41,6 +44,7 @@ import (
 	"os"
 	"os/exec"
 	"path/filepath"
+	"regexp"
 	"runtime"
 	"runtime/debug"
 	"sort"
@@ -673,7 +677,51 @@ func (a kfAcct) wellFormed() bool {
 
 func (g *gen) kfPick(s string) byte { return s[g.r.Intn(len(s))] }
 
+// white space: skipped by the s-expression reader between tokens, content inside a quoted string
+const kfWs = " \t\r\n"
+
+func (g *gen) kfWsRun(max int) []byte {
+	b := make([]byte, 1+g.r.Intn(max))
+	for i := range b {
+		b[i] = ' '
+		if g.r.Intn(2) == 0 {
+			b[i] = g.kfPick(kfWs)
+		}
+	}
+	return b
+}
+
+func (g *gen) kfWord() []byte {
+	b := make([]byte, 1+g.r.Intn(8))
+	for i := range b {
+		b[i] = g.kfPick("abcdefghijklmnopqrstuvwxyzABCDEFGHIJKLMNOPQRSTUVWXYZ0123456789@._-/")
+	}
+	return b
+}
+
+// an account name in which white space matters (all of them inside the precondition: no '"'):
+// leading, trailing, both, embedded, nothing but white space
+func (g *gen) kfWsName() []byte {
+	cat := func(parts ...[]byte) []byte { return bytes.Join(parts, nil) }
+	switch g.r.Intn(7) {
+	case 0, 1:
+		return cat(g.kfWsRun(3), g.kfWord())
+	case 2:
+		return cat(g.kfWord(), g.kfWsRun(3))
+	case 3:
+		return g.kfWsRun(4)
+	case 4:
+		return cat(g.kfWord(), g.kfWsRun(2), g.kfWord())
+	case 5:
+		return cat(g.kfWsRun(2), g.kfWord(), g.kfWsRun(2))
+	}
+	return cat(g.kfWsRun(2), g.kfWord(), g.kfWsRun(2), g.kfWord(), g.kfWsRun(2))
+}
+
 func (g *gen) kfName() []byte {
+	if g.r.Intn(4) == 0 {
+		return g.kfWsName()
+	}
 	n := g.r.Intn(20)
 	b := make([]byte, n)
 	for i := range b {
@@ -913,6 +961,91 @@ func (k *kfRun) probe(b []byte, all bool) {
 	}
 }
 
+func kfHasWs(b []byte) bool { return bytes.ContainsAny(b, kfWs) }
+
+var kfNameRe = regexp.MustCompile(`name=([0-9a-f]+|-) proto=`)
+
+// C17: the names ImportKeys returned (res: the result of the op "importkeys <file>") are the names that
+// were written into the file, byte for byte
+func (k *kfRun) namesCheck(how string, file []byte, res string, names [][]byte) {
+	olog.ok("C17")
+	in := kfShow("importkeys " + hx(file))
+	if !strings.HasPrefix(res, "some ") {
+		if res == "none" {
+			k.finding("C17", "keyfile-name-rejected", fmt.Sprintf("ImportKeys rejects the file %s for the account name(s) %q", how, names), in)
+		}
+		return
+	}
+	ms := kfNameRe.FindAllStringSubmatch(res, -1)
+	if len(ms) != len(names) {
+		return // (an account lost or gained: keyfile-roundtrip)
+	}
+	for i, m := range ms {
+		if got := unhxGo(m[1]); !bytes.Equal(got, names[i]) {
+			k.finding("C17", "keyfile-name-altered",
+				fmt.Sprintf("the file %s for the account name %q is read back by ImportKeys with the name %q", how, names[i], got), in)
+		}
+	}
+}
+
+// a hand-written key file (file: libotr layout, the name old written as a symbol) with the name
+// nm written as a quoted string: ImportKeys must return exactly nm
+func (k *kfRun) handFile(file, old, nm []byte) {
+	q := bytes.Replace(file, append(append([]byte("(name "), old...), ')'), append(append([]byte("(name \""), nm...), '"', ')'), 1)
+	if k.g.r.Intn(2) == 0 { // all on one line
+		q = bytes.Join(bytes.Fields(q[:bytes.Index(q, []byte("(name "))]), []byte(" "))
+		rest := file[bytes.Index(file, []byte("(protocol ")):]
+		q = append(append(append(append(q, " (name \""...), nm...), "\") "...), bytes.Join(bytes.Fields(rest), []byte(" "))...)
+	}
+	k.g.dist["handfile:white-space-name"]++
+	k.namesCheck("written by hand (quoted name)", q, k.op("importkeys "+hx(q), true), [][]byte{nm})
+}
+
+// C17: a quoted string (the form account names are written in) is read as the text between the
+// quotes: sexp.ReadString and sexp.ReadValue of Sstring(s).String()
+func (k *kfRun) quoted(s []byte) {
+	if bytes.IndexByte(s, '"') >= 0 {
+		return
+	}
+	g := k.g
+	in := []byte{}
+	if g.r.Intn(3) == 0 { // white space in front of the opening quote is not part of the string
+		in = append(in, g.kfWsRun(2)...)
+	}
+	in = append(append(append(in, '"'), s...), '"')
+	in = append(in, []string{"", "", " ", ")", " x", "\""}[g.r.Intn(6)]...)
+	for _, o := range []string{"sexpstr", "sexpread"} {
+		res := k.op(o+" "+hx(in), true)
+		olog.ok("C17")
+		if !strings.HasPrefix(res, "s:"+hx(s)+" ") {
+			k.finding("C17", "sexp-string-altered", fmt.Sprintf("%s reads the quoted string %q as %s", kfEntry[o], s, strings.SplitN(res, " ", 2)[0]), kfShow(o+" "+hx(in)))
+		}
+	}
+}
+
+// names with white space in every position, at the start of every run
+func (k *kfRun) wsFixed() {
+	a := kfAcct{proto: []byte("prpl-jabber"), p: big.NewInt(7), q: big.NewInt(3), g: big.NewInt(5), y: big.NewInt(6), x: big.NewInt(2)}
+	for _, s := range []string{" alice@example.org", "\tbob@example.org", "\rcarol@example.org", "\ndave@example.org", " ", "   ", "\t", "\r\n",
+		"erin@example.org ", "frank smith@example.org", "  grace\t@example.org\n", "\r\n heidi", ""} {
+		nm := []byte(s)
+		k.quoted(nm)
+		a.name = []byte("n")
+		k.handFile(kfLibotrFile(a), a.name, nm)
+		a.name = nm
+		b := a
+		b.name = append([]byte(" "), nm...) // differs in one leading blank only
+		args := kfArgs([]kfAcct{a, b})
+		olog.ok("C17")
+		if rt := k.op("roundtrip "+args, true); rt != "true" {
+			k.finding("C17", "keyfile-roundtrip", "ImportKeys(ExportKeysToFile(accounts)) differs from accounts: "+rt, "roundtrip "+args)
+		}
+		if exp := k.op("exportkeys "+args, true); !strings.ContainsAny(exp, "PSH") {
+			k.namesCheck("ExportKeysToFile wrote", unhxGo(exp), k.op("importkeys "+exp, true), [][]byte{a.name, b.name})
+		}
+	}
+}
+
 func (k *kfRun) scenario() {
 	g := k.g
 	switch c := g.r.Intn(20); {
@@ -925,6 +1058,14 @@ func (k *kfRun) scenario() {
 		wf := true
 		for i := 0; i < n; i++ {
 			a := g.kfAccount()
+			if i > 0 && g.r.Intn(3) == 0 { // the previous name again, behind (or in front of) some white space
+				prev := as[i-1].name
+				if g.r.Intn(4) == 0 {
+					a.name = append(append([]byte{}, prev...), g.kfWsRun(2)...)
+				} else {
+					a.name = append(g.kfWsRun(2), prev...)
+				}
+			}
 			as = append(as, a)
 			wf = wf && a.wellFormed()
 		}
@@ -947,7 +1088,20 @@ func (k *kfRun) scenario() {
 		if len(file) > 0 {
 			k.op(fmt.Sprintf("importkeyserr %s %d", fileHex, g.r.Intn(len(file))), true)
 		}
-		k.op("importkeys "+fileHex, true)
+		imp := k.op("importkeys "+fileHex, true)
+		if wf {
+			var names [][]byte
+			for _, a := range as {
+				names = append(names, a.name)
+			}
+			k.namesCheck("ExportKeysToFile wrote", file, imp, names)
+			for _, nm := range names {
+				if kfHasWs(nm) {
+					g.dist["roundtrip:white-space-name"]++
+					k.quoted(nm)
+				}
+			}
+		}
 		k.op("keyimport "+fileHex, true)
 		for i := 0; i < 3; i++ {
 			k.probe(g.kfMutate(file), false)
@@ -975,6 +1129,10 @@ func (k *kfRun) scenario() {
 		if r := k.op("reimport "+hx(symFile), true); r == "rejected" || r == "differs" {
 			k.finding("C17", "keyfile-reexport-not-readable", "ImportKeys accepts a file whose re-export it cannot read back ("+r+"): account name "+sym, kfShow("reimport "+hx(symFile)))
 		}
+		// the account name quoted, the way libotr (and ExportKeysToFile) write it, with white space inside the quotes
+		qn := g.kfWsName()
+		k.handFile(file, a.name, qn)
+		k.quoted(qn)
 		// what ExportKeysToFile writes for the same key: DSAPrivateKey.Import must be able to read it back
 		exp := k.op("exportkeys "+a.args(), true)
 		if !strings.ContainsAny(exp, "PSH") {
@@ -1176,6 +1334,7 @@ func init() {
 		for _, f := range kfFixed {
 			k.probe([]byte(f), true)
 		}
+		k.wsFixed()
 		for i := 0; i < n; i++ {
 			k.scenario()
 		}
